@@ -346,23 +346,32 @@ static std::string point_class(const WP& wp, bool moved) {
 }
 
 // ---------- triage classes (deterministic predicates on the failing input) ----------
-// number of wrap quadrants spanned by variable v over one constraint system, computed as wrap_assign.hh does
-// (bounds rounded down); 0 = unbounded, -1 = empty
-static long quad_extent(int n, const Sys& S, int v, const WP& wp) {
+// wrap quadrants spanned by variable v over one constraint system, computed as wrap_assign.hh does (bounds rounded
+// down); returns 1 and fills fq/lq, 0 if unbounded, -1 if empty
+static int quad_span(int n, const Sys& S, int v, const WP& wp, Z& fq, Z& lq) {
   Vec o(n); o[v] = 1; ref::SupResult hi = ref::supremum(n, S, o); o[v] = -1; ref::SupResult lo = ref::supremum(n, S, o);
   if (!hi.nonempty) return -1; if (!hi.bounded || !lo.bounded) return 0;
   Z u = zfloor(hi.sup), l = zfloor(Q(-lo.sup));
-  Z fq = zfloor(Q(l - wp.lo) / Q(wp.M)), lq = zfloor(Q(u - wp.lo) / Q(wp.M));
-  Z e = lq - fq + 1; return e > 1000000 ? 1000000 : e.get_si();
+  fq = zfloor(Q(l - wp.lo) / Q(wp.M)); lq = zfloor(Q(u - wp.lo) / Q(wp.M));
+  return 1;
 }
+// Class "coll-threshold-product": collective wrapping with OVERFLOW_WRAPS where, scanning the wrapped variables in
+// increasing order and multiplying the quadrant counts of those that are bounded, not confined to quadrant 0 and
+// individually within the threshold, the running product exceeds the threshold.
 static std::string generic_class(const Shadow& SA, int n, const WP& wp, const Vec& p, bool moved) {
   std::string base = point_class(wp, moved);
   if (wp.indiv || wp.ov != 0) return base;
   for (size_t k = 0; k < SA.d.size(); ++k) {
     if (!ref::sat(SA.d[k].cons, p)) continue;
-    bool each_ok = true; unsigned long long prod = 1;
-    for (size_t i = 0; i < wp.vlist.size(); ++i) { long e = quad_extent(n, SA.d[k].cons, wp.vlist[i], wp); if (e <= 0 || (unsigned long) e > wp.thr) each_ok = false; else prod *= (unsigned long long) e; }
-    if (each_ok && prod > wp.thr) return "coll-threshold-product";
+    Z prod = 1;
+    for (size_t i = 0; i < wp.vlist.size(); ++i) {
+      Z fq, lq; int r = quad_span(n, SA.d[k].cons, wp.vlist[i], wp, fq, lq);
+      if (r <= 0) continue;
+      if (fq == 0 && lq == 0) continue;
+      Z e = lq - fq + 1; if (e > wp.thr) continue;
+      prod *= e;
+      if (prod > wp.thr) return "coll-threshold-product";
+    }
     break;
   }
   return base;
